@@ -73,6 +73,9 @@ type DataPlan struct {
 type SASLScript struct {
 	Challenges [][]byte `json:"challenges,omitempty"`
 	Final      Decision `json:"final"`
+	// SkipChallengesWithIR: when the client supplied an initial response the
+	// mechanism goes straight to its final verdict (like PLAIN does).
+	SkipChallengesWithIR bool `json:"skip_challenges_with_ir,omitempty"`
 }
 
 // Script is the complete behaviour of the backend for one case. Lists are
@@ -594,6 +597,10 @@ func (m *saslServer) Next(response []byte) (challenge []byte, done bool, err err
 	ev := Event{Sess: m.s.id, CB: "SASLNext", Resp: append([]byte(nil), response...), RespNil: response == nil}
 	i := m.step
 	m.step++
+	if i == 0 && response != nil && m.script.SkipChallengesWithIR {
+		i = len(m.script.Challenges)
+		m.step = i + 1
+	}
 	if i < len(m.script.Challenges) {
 		m.s.b.record(ev)
 		return m.script.Challenges[i], false, nil
